@@ -317,7 +317,7 @@ where
             new_range.start,
         )?;
         d.insert(
-            old_range.start,
+            old_range.end,
             new_range.start,
             new_range.end - new_range.start,
         )?;
